@@ -322,16 +322,16 @@ def dumpCompound (pfx : String) (d : Bytes) : Out := Id.run do
       else
         o := o.push (pfx ++ "n", toString items.length)
         o := o.push (pfx ++ "adapt", adaptStr (items.map (fun it => resP it.1)))
-        let mut i := 0
-        for (res, off) in items do
+        -- members: built one by one and appended by a fold over an accumulator that stays unique
+        -- (appending inside the loop above copied the whole array per member: quadratic)
+        let member (i : Nat) (it : R ParseError Packet × Nat) : Out :=
           let ip := pfx ++ "p" ++ toString i ++ "."
-          o := o.push (ip ++ "res", resP res)
-          match res with
-          | .ok p =>
-            -- the tile's bytes are the packet's own (`Props.packet_data`); no re-slicing of `d`
-            o := o ++ dumpPacketView ip off p p.data false
-          | _ => pure ()
-          i := i + 1
+          let head : Out := #[(ip ++ "res", resP it.1)]
+          match it.1 with
+          -- the tile's bytes are the packet's own (`Props.packet_data`); no re-slicing of `d`
+          | .ok p => head ++ dumpPacketView ip it.2 p p.data false
+          | _ => head
+        o := (items.zipIdx.map (fun (it, i) => member i it)).foldl (fun acc x => acc ++ x) o
         -- three further calls
         let mut st := c'
         let mut after : List String := []
